@@ -6,5 +6,14 @@ export CARGO_NET_OFFLINE=true
 [ -f harness/Cargo.lock ] || cp /repo/Cargo.lock harness/Cargo.lock
 ( cd harness && cargo build --release --target-dir /verif/target-a )
 ( cd harness && cargo build --release --features hooks --target-dir /verif/target-b )
+# C24: the Send + Sync obligations (/verif/c24) and the harness with the thread-sharing module, in their own target dir
+[ -f c24/Cargo.lock ] || cp /repo/Cargo.lock c24/Cargo.lock
+( cd c24 && cargo build --release --target-dir /verif/target-c24 )
+( cd harness && cargo build --release --features threads --target-dir /verif/target-c24 )
+# C26 driver (generates stubs with /repo/trustfall_stubgen and compiles them against /repo/trustfall)
+[ -f stub/Cargo.lock ] || cp /repo/Cargo.lock stub/Cargo.lock
+( cd stub && cargo build --release --target-dir /verif/target-a )
+# C27: the Python bindings, built for the tooling venv's interpreter (rebuilt by the check itself on every run)
+( cd /repo && PYO3_PYTHON=/opt/veriftools/pyvenv/bin/python cargo build --release --offline -p pytrustfall --target-dir /verif/target-py )
 for s in scripts/setup_*.sh; do [ -x "$s" ] && "$s"; done
 echo "setup done"
